@@ -99,6 +99,9 @@ Definition show_delivered (m : msg) : string :=
   end.
 
 Definition is_datagram (tr : string) : bool := String.eqb tr "udp" || String.eqb tr "dtls" || String.eqb tr "dtlsbig".
+(* the dtls transport ("dtlsbig" is the same transport: the generator's name for the class of
+   cases whose messages exceed the receive buffer of pion/dtls) *)
+Definition is_dtls (tr : string) : bool := String.eqb tr "dtls" || String.eqb tr "dtlsbig".
 
 (* the exporter side: SendSet of the template set, then of the data set (model of the current code) *)
 Fixpoint seqN (n : nat) : list N := match n with O => [] | S n' => seqN n' ++ [N.of_nat n'] end.
@@ -136,7 +139,7 @@ Definition c01_model (c : c01_case) : string :=
                        end in
           (* pion/dtls v2 receives each datagram into an 8192-byte buffer: a record longer than that
              (13 header + 8 nonce + payload + 16 tag) is truncated, fails authentication and is dropped *)
-          let wires := if String.eqb (k_transport c) "dtls" || String.eqb (k_transport c) "dtlsbig"
+          let wires := if is_dtls (k_transport c)
                        then filter (fun w => (blen w <=? 8155)%N) wires else wires in
           let ms := collect (negb (is_datagram (k_transport c))) [] wires in
           "sent=" ++ show_N n1 ++ "," ++ show_N n2 ++ " n=" ++ show_nat (List.length ms) ++
@@ -158,6 +161,13 @@ Definition c01_hyp (c : c01_case) : bool :=
   (spec_len_tpl (k_tpl c) <=? (if is_datagram (k_transport c) then 65507 else 65535))%N &&
   (spec_len_data (k_recs c) <=? (if is_datagram (k_transport c) then 65507 else 65535))%N.
 
+(* the extra hypothesis of C01_oracle (known finding F14): over DTLS both messages fit the
+   8192-byte receive buffer of pion/dtls (at most 8155 bytes of IPFIX message); stated on the
+   application's inputs alone *)
+Definition dtls_fits (c : c01_case) : bool :=
+  negb (is_dtls (k_transport c)) ||
+  ((spec_len_tpl (k_tpl c) <=? 8155)%N && (spec_len_data (k_recs c) <=? 8155)%N).
+
 Definition c01_spec (c : c01_case) : string :=
   let h := mkHdr 0 0 0 (k_obs c) in
   "sent=" ++ show_N (spec_len_tpl (k_tpl c)) ++ "," ++ show_N (spec_len_data (k_recs c)) ++ " n=2" ++
@@ -168,7 +178,12 @@ Fixpoint contains (needle hay : string) : bool :=
   String.prefix needle hay ||
   match hay with EmptyString => false | String _ r => contains needle r end.
 
-(* outside the single-template hypothesis the property still demands that every template record
+(* C01_holds_on demands the specification observation for every case inside c01_hyp - also for
+   the DTLS cases outside dtls_fits, where the model (and the code) lose a message: those are
+   reported (known finding F14), not excused. The driver's second flag says whether the case is
+   inside the hypotheses of theorem C01_oracle (c01_hyp and dtls_fits), i.e. whether
+   model = specification is PROVED for it.
+   Outside the single-template hypothesis the property still demands that every template record
    handed to the exporter is delivered: a case with ntpl > 1 holds only if the observation
    shows a template message with that many records *)
 Definition C01_holds_on (c : c01_case) (obs : string) : bool :=
@@ -179,6 +194,7 @@ Definition C01_holds_on (c : c01_case) (obs : string) : bool :=
 
 Definition c01_run (case obs : list string) : string :=
   match c01_parse case with
-  | Some c => c01_model c ++ " | " ++ show_bool (C01_holds_on c (unwords obs)) ++ " " ++ show_bool (c01_hyp c)
+  | Some c => c01_model c ++ " | " ++ show_bool (C01_holds_on c (unwords obs)) ++ " " ++
+              show_bool (c01_hyp c && dtls_fits c)
   | None => "PARSE-ERROR"
   end.
